@@ -210,6 +210,8 @@ class SimNum:
 
 class Obj:
     """plain attribute object with a __dict__ and a deterministic repr"""
+    klass_default = 'cd'        # readable on every instance, stored on none (del obj.klass_default fails)
+
     def __init__(self, **kw):
         self.__dict__.update(kw)
 
